@@ -212,6 +212,12 @@ def run_impl(case):
         cond = ms.generate_conditions(txt, variables=var, nvars=case["nvars"], locals=dict(locs) if use_locals else None)
         ineq, eq = cond
         pen = ms.generate_penalty(cond, **kw)
+        # an unrelated compilation with other tolerances / extra names must not influence functions compiled earlier
+        try:
+            ms.generate_penalty(ms.generate_conditions("x0 > x1 + zz", nvars=2, locals=dict(tol=0.125, rel=0.5, zz=3.0)))
+            ms.generate_conditions("x0 < 2.0", nvars=1, locals=dict(tol=0.0, rel=0.0))
+        except Exception:
+            pass
         x = list(case["x"])
         out["ineq"] = [float(f(list(x))) for f in ineq]
         out["eq"] = [float(f(list(x))) for f in eq]
